@@ -349,7 +349,7 @@ const logFormatDisconnected = "disconnected due to unsupported message type: %d 
 
 // Be executed asynchronously after readed message
 func (c *handlerCtx) handle() {
-	if c.stat.Code() == CodeMtypeNotAllowed {
+	if c.stat == statCodeMtypeNotAllowed {
 		goto E
 	}
 	switch c.input.Mtype() {
